@@ -6,6 +6,8 @@ import (
 	"github.com/ipfs/go-cid"
 	"github.com/ipld/go-ipld-prime"
 
+	"github.com/libp2p/go-libp2p/core/peer"
+
 	"github.com/ipfs/go-graphsync"
 	"github.com/ipfs/go-graphsync/cidset"
 	"github.com/ipfs/go-graphsync/dedupkey"
@@ -62,6 +64,7 @@ type c24 struct {
 	userSkip int64
 	ignore   *cid.Set
 	// the request may live in a named deduplication scope that a second, unrelated request joins while it runs
+	alt    *SimStore // the store selected for the request, when it is not the default one
 	sib    *Req
 	sibDag *DAG
 	sibAt  int
@@ -96,7 +99,26 @@ func (s *c24) Build(w *World) {
 	cfg := NodeCfg{GateReads: true, GateCommits: true}
 	s.a = NewNode(w, "A", cfg)
 	s.b = NewNode(w, "B", cfg)
-	populate(s.a, s.dag, s.split.Rq)
+	// the requestor's blocks may live in a store selected for the request (a persistence option), not in its default store
+	altStore := t.Chance(250)
+	if altStore {
+		s.alt = NewSimStore(w, "A2")
+		for _, c := range s.dag.Order {
+			if s.split.Rq[c] {
+				s.alt.Put(c, s.dag.Blocks[c])
+			}
+		}
+		if err := s.a.GS.RegisterPersistenceOption("alt", s.alt.LinkSystem()); err != nil {
+			panic(err)
+		}
+		s.a.OnOutgoingRequest = func(p peer.ID, r graphsync.RequestData, a graphsync.OutgoingRequestHookActions) {
+			if r.ID() == s.req.ID {
+				a.UsePersistenceOption("alt")
+			}
+		}
+	} else {
+		populate(s.a, s.dag, s.split.Rq)
+	}
 	populate(s.b, s.dag, s.split.Rs)
 	var exts []graphsync.ExtensionData
 	if t.Chance(300) {
@@ -111,7 +133,7 @@ func (s *c24) Build(w *World) {
 		}
 		exts = append(exts, graphsync.ExtensionData{Name: graphsync.ExtensionDoNotSendCIDs, Data: cidset.EncodeCidSet(s.ignore)})
 	}
-	if t.Chance(250) {
+	if !altStore && t.Chance(250) {
 		k, _ := dedupkey.EncodeDedupKey("scope")
 		kx := graphsync.ExtensionData{Name: graphsync.ExtensionDeDupByKey, Data: k}
 		exts = append(exts, kx)
@@ -143,7 +165,7 @@ func (s *c24) Describe(w *World) string {
 	if s.ignore != nil {
 		ign = s.ignore.Len()
 	}
-	return fmt.Sprintf("%s userSkip=%d ignore=%d", s.c02.Describe(w), s.userSkip, ign)
+	return fmt.Sprintf("%s userSkip=%d ignore=%d altStore=%v", s.c02.Describe(w), s.userSkip, ign, s.alt != nil)
 }
 
 // localPrefix counts the blocks a traversal loads from the requestor store
